@@ -1,0 +1,19 @@
+//go:build verif
+
+package roprometheus
+
+// Verification hook (build tag `verif` only; add-only).
+//
+// The licence check of this plugin (license.go: isPrometheusEnabled) needs a key signed by the
+// vendor. The package already has a private bypass flag for its own tests
+// (`bypassLicenseCheck`); this setter lets an external verification harness flip it, so that
+// both compositions selected by checkLicenseAndPipe (plain / instrumented) can be exercised.
+// Without the tag this file is not compiled and the package is unchanged.
+
+// VerifSetLicenseBypass sets the package-private licence bypass flag and returns its
+// previous value. Not synchronised: call it only while no pipeline is being subscribed.
+func VerifSetLicenseBypass(on bool) (previous bool) {
+	previous = bypassLicenseCheck
+	bypassLicenseCheck = on
+	return previous
+}
